@@ -1,5 +1,6 @@
-from checks import scan
+from checks import scan, text
 CHECKS = {
+    "C01": text.c01,
     "C10": scan.c10,
     "C11": scan.c11,
     "C13": scan.c13,
